@@ -80,10 +80,11 @@ HoldsNothing(Ls) == \A sh \in Shnums : ~Present(Ls[sh])
 PrivMust(V, Ls) == \E sh \in Shnums : Signed(V, Ls[sh]) /\ Ls[sh].cls \in {"intact", "bodybad", "chainbad", "softbad"}
 PrivMay(V, Ls) == \E sh \in Shnums : Present(Ls[sh]) /\ Ls[sh].cls # "privbad"
 
-\* the updater's view of a server (see the header)
-ViewOf(kind, Ls, row, newbad) ==
+\* the updater's view of a server (see the header); a share without valid signature counts whether or not
+\* the slot had been marked bad before
+ViewOf(V, kind, Ls, row, newbad) ==
   IF kind = "fail" THEN "x"
-  ELSE IF newbad # {} THEN "x"
+  ELSE IF newbad # {} \/ \E sh \in Shnums : Corrupt(V, Ls[sh]) THEN "x"
   ELSE IF HoldsNothing(Ls) THEN "0"
   ELSE IF \E sh \in Shnums : row[sh] # 0 THEN "1"
   ELSE "x"      \* holds nothing but shares marked bad earlier: as good as a server with a corrupt share
